@@ -4,7 +4,7 @@
 use crate::prng::Rng;
 use serde_json::{json, Value};
 
-const SCALARS: [&str; 10] = ["i8", "i32", "i64", "u8", "u64", "f64", "bool", "String", "isize", "PathBuf"];
+const SCALARS: [&str; 18] = ["i8", "i32", "i64", "u8", "u64", "f64", "bool", "String", "isize", "PathBuf", "i16", "u16", "u32", "usize", "f32", "IpAddr", "IpAddr", "Cow<'static, str>"];
 
 #[derive(Clone)]
 enum Ty {
@@ -36,6 +36,16 @@ struct StructDef {
     fields: Vec<Field>,
 }
 
+/// a scalar member; `IpAddr` has no `Default` (the generated structs derive it), so it is held in an `Option`
+fn plain_scalar(rng: &mut Rng) -> Ty {
+    let s = *rng.pick(&SCALARS);
+    if s == "IpAddr" {
+        Ty::Opt(Box::new(Ty::Scalar(s)))
+    } else {
+        Ty::Scalar(s)
+    }
+}
+
 fn ty_src(t: &Ty, generic_name: &str) -> String {
     match t {
         Ty::Scalar(s) => s.to_string(),
@@ -63,6 +73,15 @@ fn struct_ty(d: &StructDef, defs: &[StructDef]) -> String {
     }
 }
 
+/// the text of an address as RFC 5952 writes it (what `Display` for `IpAddr` is documented to produce), computed
+/// here from the parsed octets and segments, not through the crate under test
+fn ip_text(v: &str) -> String {
+    match v.parse::<std::net::IpAddr>().unwrap() {
+        std::net::IpAddr::V4(a) => { let o = a.octets(); format!("{}.{}.{}.{}", o[0], o[1], o[2], o[3]) }
+        std::net::IpAddr::V6(a) => a.to_string(),
+    }
+}
+
 fn scalar_value(rng: &mut Rng, s: &str) -> (String, Value) {
     match s {
         "i8" => {
@@ -80,6 +99,29 @@ fn scalar_value(rng: &mut Rng, s: &str) -> (String, Value) {
         "isize" => {
             let v = *rng.pick(&[3i64, -3]);
             (format!("{v}isize"), if v < 0 { json!({ "i": v }) } else { json!({ "u": v }) })
+        }
+        "i16" => {
+            let v = *rng.pick(&[0i64, -2, i16::MIN as i64, i16::MAX as i64]);
+            (format!("{v}i16"), if v < 0 { json!({ "i": v }) } else { json!({ "u": v }) })
+        }
+        "u16" | "u32" | "usize" => {
+            let v = *rng.pick(&[0u64, 11, 65535]);
+            (format!("{v}{s}"), json!({ "u": v }))
+        }
+        "f32" => {
+            let v = *rng.pick(&[1.5f32, -0.25, 0.1]);
+            (format!("{v:?}f32"), json!({"f": format!("{:016x}", (v as f64).to_bits())}))
+        }
+        "IpAddr" => {
+            // an address enters as its own text: an IPv4-mapped IPv6 address is not the IPv4 address
+            let v = *rng.pick(&["10.0.0.1", "::ffff:10.0.0.1", "::ffff:192.168.1.1", "::ffff:a00:1", "::1", "::", "fe80::1", "::1.2.3.4", "2001:db8::ffff:10.0.0.1", "0.0.0.0", "::ffff:0.0.0.0"]);
+            let txt = v.parse::<std::net::IpAddr>().unwrap();
+            let _ = txt;
+            (format!("{:?}.parse::<IpAddr>().unwrap()", v), json!({ "s": ip_text(v) }))
+        }
+        "Cow<'static, str>" => {
+            let v = *rng.pick(&["", "cow", "c.d"]);
+            (format!("Cow::Borrowed({:?})", v), json!({ "s": v }))
         }
         "u8" => {
             let v = rng.below(256);
@@ -221,7 +263,7 @@ fn gen_defs(rng: &mut Rng, n: usize) -> Vec<StructDef> {
         let mut has_generic = false;
         for fi in 0..nf {
             let ty = match rng.below(10) {
-                0..=3 => Ty::Scalar(*rng.pick(&SCALARS)),
+                0..=3 => plain_scalar(rng),
                 4 => Ty::Opt(Box::new(Ty::Scalar(*rng.pick(&SCALARS)))),
                 5 => Ty::Map(*rng.pick(&["u8", "String", "i64", "bool"])),
                 6 | 7 if id > 0 => {
@@ -241,11 +283,11 @@ fn gen_defs(rng: &mut Rng, n: usize) -> Vec<StructDef> {
                         let j = rng.below(id);
                         if defs[j].fields.iter().any(|f| matches!(f.ty, Ty::Generic(_))) { Ty::Scalar("i64") } else { Ty::Struct(j) }
                     } else {
-                        Ty::Scalar(*rng.pick(&SCALARS))
+                        plain_scalar(rng)
                     };
                     Ty::Generic(Box::new(inner))
                 }
-                _ => Ty::Scalar(*rng.pick(&SCALARS)),
+                _ => plain_scalar(rng),
             };
             let attrs = if matches!(ty, Ty::Generic(_)) {
                 // `serde(default)` on a type parameter needs extra bounds: keep getter attributes only
